@@ -37,7 +37,7 @@ func (mbs *metadataPartStorage) DeleteObject(ctx context.Context, bucketName sto
 				// key still creates a delete marker below.
 			} else if err == storage.ErrNoSuchKey {
 				// Object does not exist.
-				if opts != nil && opts.IfMatchETag != nil {
+				if opts != nil && (opts.IfMatchETag != nil || opts.IfMatchLastModifiedTime != nil) {
 					// Conditional delete: object must exist.
 					return storage.ErrPreconditionFailed
 				}
@@ -52,8 +52,9 @@ func (mbs *metadataPartStorage) DeleteObject(ctx context.Context, bucketName sto
 		var metaOpts *metadatastore.DeleteObjectOptions
 		if opts != nil {
 			metaOpts = &metadatastore.DeleteObjectOptions{
-				VersionID:   opts.VersionID,
-				IfMatchETag: opts.IfMatchETag,
+				VersionID:               opts.VersionID,
+				IfMatchETag:             opts.IfMatchETag,
+				IfMatchLastModifiedTime: opts.IfMatchLastModifiedTime,
 			}
 		}
 		metaResult, err := mbs.metadataStore.DeleteObject(ctx, tx.SqlTx(), bucketName, key, metaOpts)
